@@ -4,12 +4,12 @@ cd /verif
 while [ ! -e /tmp/seedloop.stop ]; do
   did=0
   for d in seeded/C*/; do
-    id=$(basename $d)
+    sid=$(basename $d); id=${sid%%-*}
     [ -e "$d/meta.json" ] || continue
     [ -e "$d/result.txt" ] && continue
     [ -e "props/$id/prop.py" ] || continue
-    mkdir "/tmp/seedclaim-$id" 2>/dev/null || continue
-    nice -n 5 timeout 3600 tools/seedrun.sh $id > "$d/result.txt.tmp" 2>&1
+    mkdir "/tmp/seedclaim-$sid" 2>/dev/null || continue
+    nice -n 5 timeout 3600 tools/seedrun.sh $id /verif/seeded/$sid/patch.diff $id > "$d/result.txt.tmp" 2>&1
     mv "$d/result.txt.tmp" "$d/result.txt"; did=1
     echo "$(date +%H:%M) $(head -c 300 $d/result.txt)" >> /tmp/seedloop.log
   done
